@@ -390,6 +390,20 @@ func (e *Engine) havocWriteSet(st *State, fr *Frame, w *writeSet) {
 	if w.all {
 		e.havocAllHeaps(st)
 	}
+	if w.allocs {
+		nn := e.ctx.Fresh("next_lp", SInt)
+		st.Assume(Le(st.next, nn))
+		st.next = nn
+	}
+	for _, fv := range w.freeVars {
+		if fr != nil && fr.fn != nil {
+			for i, f := range fr.fn.FreeVars {
+				if f == fv && i < len(fr.free) {
+					w.freeCells = append(w.freeCells, fr.free[i])
+				}
+			}
+		}
+	}
 	for a := range w.cells {
 		pv, ok := fr.regs[a]
 		if !ok || pv.P == nil || pv.P.Kind != LocCell {
@@ -402,8 +416,10 @@ func (e *Engine) havocWriteSet(st *State, fr *Frame, w *writeSet) {
 		st.cells[pv.P.Cell] = nv
 	}
 	// free variables (captured cells) written by this closure's own loop
+	doneCells := map[int]bool{}
 	for _, fvv := range w.freeCells {
-		if fvv.P != nil && fvv.P.Kind == LocCell {
+		if fvv.P != nil && fvv.P.Kind == LocCell && !doneCells[fvv.P.Cell] {
+			doneCells[fvv.P.Cell] = true
 			old := st.cells[fvv.P.Cell]
 			nv := e.freshVal("cap_cell", old.T)
 			st.Assume(e.wellFormed(nv, st.next))
@@ -434,11 +450,6 @@ func (e *Engine) havocWriteSet(st *State, fr *Frame, w *writeSet) {
 			e.setObjHeap(st, rt, i, h)
 		}
 	}
-	if w.allocs {
-		nn := e.ctx.Fresh("next_lp", SInt)
-		st.Assume(Le(st.next, nn))
-		st.next = nn
-	}
 	if w.maps {
 		e.havocMaps(st)
 	} else {
@@ -468,6 +479,7 @@ func (e *Engine) havocWriteSet(st *State, fr *Frame, w *writeSet) {
 type writeSet struct {
 	cells      map[*ssa.Alloc]bool
 	freeCells  []Val
+	freeVars   []*ssa.FreeVar // captured variables written through a callee's assigns clause
 	sliceElems map[string]types.Type
 	objRoots   map[string]types.Type
 	maps       bool
@@ -515,7 +527,7 @@ func (e *Engine) scanWrites(fr *Frame, instrs []ssa.Instruction, w *writeSet, en
 		case *ssa.Alloc:
 			w.cells[r] = true
 			// heap-allocated objects are written through the object heap
-			if pt, ok := r.Type().Underlying().(*types.Pointer); ok {
+			if pt, ok := r.Type().Underlying().(*types.Pointer); ok && !e.addrUsesLocal(r, map[ssa.Value]bool{}) {
 				t := resolve(pt.Elem(), env)
 				w.objRoots[typeKey(t)] = t
 			}
@@ -524,12 +536,16 @@ func (e *Engine) scanWrites(fr *Frame, instrs []ssa.Instruction, w *writeSet, en
 			et := resolve(elemOfSlice(xt), env)
 			w.sliceElems[typeKey(et)] = et
 		case *ssa.FreeVar:
+			isCell := false
 			for i, fv := range fr.fn.FreeVars {
 				if fv == r && i < len(fr.free) {
 					w.freeCells = append(w.freeCells, fr.free[i])
+					if fr.free[i].P != nil && fr.free[i].P.Kind == LocCell {
+						isCell = true
+					}
 				}
 			}
-			if pt, ok := r.Type().Underlying().(*types.Pointer); ok {
+			if pt, ok := r.Type().Underlying().(*types.Pointer); ok && !isCell {
 				t := resolve(pt.Elem(), env)
 				w.objRoots[typeKey(t)] = t
 			}
@@ -678,8 +694,21 @@ func (e *Engine) scanContractWrites(callee *ssa.Function, c *Contract, cc *ssa.C
 			w.all = true
 		case strings.HasPrefix(a, "fields("):
 			name := strings.TrimSuffix(strings.TrimPrefix(a, "fields("), ")")
-			for _, p := range body.Params {
+			for pi, p := range body.Params {
 				if p.Name() == name {
+					if cc != nil && !cc.IsInvoke() && pi < len(cc.Args) {
+						// the object is a local variable of the caller: only that cell is written
+						switch av := cc.Args[pi].(type) {
+						case *ssa.FreeVar:
+							w.freeVars = append(w.freeVars, av)
+							continue
+						case *ssa.Alloc:
+							if e.addrUsesLocal(av, map[ssa.Value]bool{}) {
+								w.cells[av] = true
+								continue
+							}
+						}
+					}
 					t := resolve(p.Type(), cenv)
 					if pt, ok := t.Underlying().(*types.Pointer); ok {
 						rt := resolve(pt.Elem(), cenv)
@@ -895,6 +924,16 @@ func (e *Engine) debugRef(st *State, fr *Frame, x *ssa.DebugRef) {
 	v := e.operand(st, fr, x.X)
 	if os.Getenv("GOVC_TRACE_NAMES") != "" {
 		fmt.Fprintf(os.Stderr, "[debugref] %s.%s := %v (%s)\n", fr.fn.Name(), obj.Name(), v, x.X.Name())
+	}
+	if !x.IsAddr {
+		// a variable that lives in a cell (captured by a closure, address taken): its name denotes the cell's
+		// current content, not the value it was initialised with
+		if a := e.allocNamed(fr.fn, obj.Name()); a != nil {
+			if pv, ok := fr.regs[a]; ok {
+				fr.names[obj.Name()] = NameBinding{V: pv, IsAddr: true}
+				return
+			}
+		}
 	}
 	fr.names[obj.Name()] = NameBinding{V: v, IsAddr: x.IsAddr}
 }
@@ -1507,4 +1546,30 @@ func (e *Engine) uniqueValues(fn *ssa.Function) map[string]ssa.Value {
 func isAbstractTP(t types.Type) bool {
 	_, ok := t.(*types.TypeParam)
 	return ok
+}
+
+var allocNameCache = map[*ssa.Function]map[string]*ssa.Alloc{}
+
+// allocNamed returns the (unique) Alloc holding the source variable `name` of fn, if any.
+func (e *Engine) allocNamed(fn *ssa.Function, name string) *ssa.Alloc {
+	m, ok := allocNameCache[fn]
+	if !ok {
+		m = map[string]*ssa.Alloc{}
+		dup := map[string]bool{}
+		for _, b := range fn.Blocks {
+			for _, in := range b.Instrs {
+				if a, ok := in.(*ssa.Alloc); ok && a.Comment != "" {
+					if _, seen := m[a.Comment]; seen {
+						dup[a.Comment] = true
+					}
+					m[a.Comment] = a
+				}
+			}
+		}
+		for n := range dup {
+			delete(m, n)
+		}
+		allocNameCache[fn] = m
+	}
+	return m[name]
 }
